@@ -60,7 +60,7 @@ pub struct Case {
 
 pub struct C01;
 
-pub const KINDS: [&str; 33] = [
+pub const KINDS: [&str; 34] = [
     "honest",
     "header-nonce",
     "header-field",
@@ -94,6 +94,7 @@ pub const KINDS: [&str; 33] = [
     "skip-boundary-blocks",
     "drop-sample",
     "drop-last-sample",
+    "splice-competing-chain",
 ];
 
 const LAST_NS: [u64; 6] = [1, 2, 3, 5, 10, 100];
@@ -522,6 +523,19 @@ fn apply(chain: &Chain, fork: &Chain, req: &packed::GetLastStateProof, honest: &
                 headers.drain(k..k + j);
             }
         }
+        "splice-competing-chain" => {
+            // The requested last header is echoed (header, uncles hash, extension), but its parent chain root, all the
+            // returned headers and the MMR proof are those of a competing branch which has the same total difficulty at that
+            // height: a complete, valid proof -- of another chain.
+            if (last_number as usize) < fork.blocks.len() && last_number >= 1 && fork.total_diff[(last_number - 1) as usize] == chain.total_diff[(last_number - 1) as usize] {
+                let nums = layout.numbers();
+                if !nums.is_empty() && nums.iter().all(|n| (*n as usize) < fork.blocks.len()) {
+                    last = last.clone().as_builder().parent_chain_root(fork.chain_root(last_number - 1)).build();
+                    headers = nums.iter().map(|n| fork.verifiable_header(*n)).collect();
+                    proof = fork.proof_for(last_number, &nums).into_iter().collect();
+                }
+            }
+        }
         "drop-last-sample" => {
             // the sample right below the tail: the requested difficulties are densest there (edge of the "is a block missing
             // between the samples and the last-n section" condition)
@@ -537,7 +551,7 @@ fn apply(chain: &Chain, fork: &Chain, req: &packed::GetLastStateProof, honest: &
         }
         _ => {}
     }
-    if m.reprove && !matches!(kind, "bytes" | "honest" | "drop-proof-item" | "duplicate-proof-item" | "perturb-proof-item" | "append-proof-item" | "empty-proof") {
+    if m.reprove && !matches!(kind, "bytes" | "honest" | "drop-proof-item" | "duplicate-proof-item" | "perturb-proof-item" | "append-proof-item" | "empty-proof" | "splice-competing-chain") {
         // a peer which owns the real chain reveals another set of genuine headers and proves exactly that set
         let ln: u64 = last.header().raw().number().unpack();
         let nums: Vec<u64> = headers.iter().map(|h| Unpack::<u64>::unpack(&h.header().raw().number())).collect();
@@ -604,7 +618,7 @@ impl Property for C01 {
             Tier::Quick => 260u16,
             Tier::Thorough => 600u16,
         };
-        let mutation = (prop_oneof![1 => Just(0u8), 20 => 1u8..26, 3 => Just(26u8), 8 => 27u8..33], any::<u16>(), any::<u8>(), any::<u64>(), prop::bool::weighted(0.4), prop::bool::weighted(0.6))
+        let mutation = (prop_oneof![1 => Just(0u8), 20 => 1u8..26, 3 => Just(26u8), 8 => 27u8..34], any::<u16>(), any::<u8>(), any::<u64>(), prop::bool::weighted(0.4), prop::bool::weighted(0.6))
             .prop_map(|(kind, pos, sub, val, remine, reprove)| Mutation { kind, pos, sub, val, remine, reprove });
         (any::<u64>(), 1u8..25, 1u8..30, prop_oneof![2 => Just(0u16), 3 => 1u16..200], 1u16..maxg, 0u8..6, prop::bool::weighted(0.2), prop_oneof![7 => Just(0u8), 1 => Just(1u8), 1 => Just(2u8), 3 => Just(3u8), 1 => Just(4u8), 3 => Just(5u8)], mutation)
             .prop_map(|(seed, n_epochs, maxlen, proven, growth, last_n, restart_before, situation, mutation)| Case {
